@@ -159,9 +159,11 @@ theorem appendOctetString_ne (pos : Nat) (bytes : Bytes) (params : Params) (bits
         have hcne := ne_of_length_pos hc
         split at h
         · simp only [Except.ok.injEq] at h; rw [← h]; simp [hcne]
-        · simp only [Except.ok.injEq] at h; rw [← h]; simp [hcne]
+        · split at h
+          · simp [Aper.panic] at h
+          · simp only [Except.ok.injEq] at h; rw [← h]; simp [hcne]
     · split at h
-      · simp [err] at h
+      · split at h <;> simp [err, Aper.panic] at h
       · cases hf : fragLoop 8 sr lb.toNat (bytes.length / 16384 + 2) (pos + pre.length) (bytes.length - lb.toNat) (bytesToBits bytes) with
         | error e => rw [hf] at h; simp at h
         | ok b =>
@@ -196,9 +198,11 @@ theorem appendBitString_ne (pos : Nat) (bytes : Bytes) (len : Nat) (params : Par
           have hcne := ne_of_length_pos hc
           split at h
           · simp only [Except.ok.injEq] at h; rw [← h]; simp [hcne]
-          · simp only [Except.ok.injEq] at h; rw [← h]; simp [hcne]
+          · split at h
+            · simp [Aper.panic] at h
+            · simp only [Except.ok.injEq] at h; rw [← h]; simp [hcne]
       · split at h
-        · simp [err] at h
+        · split at h <;> simp [err, Aper.panic] at h
         · cases hf : fragLoop 1 sr lb.toNat (len / 16384 + 2) (pos + pre.length) (len - lb.toNat) ((bytesToBits bytes).take len) with
           | error e => rw [hf] at h; simp at h
           | ok b =>
